@@ -418,6 +418,7 @@ theorem passLoop_relax (P : Params K) (items : List (Item K)) (lineW : K) (hwf :
                         obtain ⟨hyb, hzb⟩ := afterSums_le P items lineW hwf prev b hpb hleg
                         obtain ⟨hyx, hzx⟩ := afterSums_le P items lineW hwf prev x hpx hlegx
                         apply keep_step P items lineW (some ti) b it rest lb0 n prev hwf.inf hwf.lw hIc.sums hn0 hat hnf hyb hzb
+                          (hwf.snap prev b it hit (fun a ha => legalAt_lt (hprev a ha).2))
                         intro h1
                         obtain ⟨_, _, _, hmono⟩ := pre_mono items hwf.itemsOK b (x - b)
                         have e : b + (x - b) = x := by omega
@@ -426,6 +427,7 @@ theorem passLoop_relax (P : Params K) (items : List (Item K)) (lineW : K) (hwf :
                             ((pre items x).2.2 - (afterSums P items prev).2.2) := by linarith
                         have h3 := tooLong_of P lineW itx _ (pre items x).2.1 _ _ (afterSums P items prev).2.1 _
                           (hwf.itemsOK itx (List.mem_of_getElem? hix)).1 hzx hwf.inf h2
+                        rw [hwf.snap prev x itx hix (fun a ha => legalAt_lt (hprev a ha).2)] at hr
                         rw [hr] at h3
                         rcases h3 with h3 | ⟨r', h3, hr'⟩
                         · cases h3
